@@ -162,12 +162,13 @@ static const PmcConfig CFG[] = {
     {"1:t|u",           3, {1,2}, {1,1}, {0,0}, {0,0}, "timed ops, timeout landing anywhere"},
     {"0:t|u",           3, {1,2}, {1,1}, {0,0}, {0,0}, ""},
     {"1:x,s|v,r",       3, {1,2}, {0,0}, {0,0}, {0,0}, "try ops next to blocking ones"},
+    {"2:sss|r|r",       2, {1,2}, {0,0}, {0,0}, {0,0}, ""},
+    // generated programs last: they take whatever budget the configs above leave
     {"1:gen1|1x2",      3, {0,0}, {0,0}, {0,0}, {0,0}, "generated: 1+1 threads on two vCPUs, up to 2 ops each from {s,r,t,u,x,v,c}, every arrival order (default schedule)"},
     {"0:gen1|1x2",      3, {0,0}, {0,0}, {0,0}, {0,0}, ""},
     {"2:gen2|1x1",      3, {0,1}, {0,0}, {0,0}, {0,0}, "2+1 threads, one op each; thorough: + one preemption"},
     {"1:gen2|1x2",      2, {0,0}, {0,0}, {0,0}, {0,0}, ""},
     {"0:gen2|1x2",      2, {0,0}, {0,0}, {0,0}, {0,0}, ""},
-    {"2:sss|r|r",       2, {1,2}, {0,0}, {0,0}, {0,0}, ""},
 };
 const PmcConfig* pmc_configs(int* n) { *n = sizeof CFG / sizeof CFG[0]; return CFG; }
 const char* pmc_property(void) { return "C09"; }
